@@ -17,11 +17,11 @@ def register(claim, not_yet):
     claim('C02',
           'Proved for every filter length L >= 2, every signal and every commutative ring: if the bank satisfies the finite polyphase biorthogonality conditions PRBank, then synthesis(analysis(x)) '
           'returns every sample of x for ANY extension of the signal (pr_any_extension), hence in modes zero/symmetric/reflect/periodic (pr_padded) and for the models of afb1d/sfb1d themselves '
-          '(impl_pr_padded: never raises, returns x), in periodization mode for every length, odd included (pr_periodization; impl_pr_periodization for the code path when L <= N + N%2); the un-pad length rule (N or N+1 samples); THE WHOLE 1-D PYRAMID: for every J, waverec(wavedec(x)) starts with x and is at most one sample longer (C02J.pyramid_pr: the one-sample-longer reconstruction of each level is exactly what the un-pad rule trims), the pyramid of a signal has the shapes the inverse accepts (compat_wavedec), hence DWT1DInverse(DWT1DForward(x)) returns x (plus at most one trailing sample, as PyWavelets) for the implementation models of the two modules, every J, every length, modes zero/symmetric/periodic (DWT1D_roundtrip); both directions refine the PyWavelets formulas (C01/C10). PRBank is a hypothesis about the filter '
-          'values: it is measured on all 106 wavelets by the check (float residual, dmey reported), not proved per wavelet. The 2-D lifting and the float tolerance are '
+          '(impl_pr_padded: never raises, returns x), in periodization mode for every length, odd included (pr_periodization; impl_pr_periodization for the code path when L <= N + N%2); the un-pad length rule (N or N+1 samples); THE WHOLE 1-D PYRAMID: for every J, waverec(wavedec(x)) starts with x and is at most one sample longer (C02J.pyramid_pr: the one-sample-longer reconstruction of each level is exactly what the un-pad rule trims), the pyramid of a signal has the shapes the inverse accepts (compat_wavedec), hence DWT1DInverse(DWT1DForward(x)) returns x (plus at most one trailing sample, as PyWavelets) for the implementation models of the two modules, every J, every length, modes zero/symmetric/periodic (DWT1D_roundtrip); THE WHOLE 2-D PYRAMID: idwt2(dwt2(x)) carries x in its top-left corner with at most one extra row and column (C02K.level2d_pr), the un-pad rule removes exactly those (unpad_topleft), hence for every J, every image size and per-axis wavelets waverec2(wavedec2(x)) and DWTInverse(DWTForward(x)) of the implementation models return x in the top-left corner (pyramid2d_pr, DWT2D_roundtrip); both directions refine the PyWavelets formulas (C01/C10). PRBank is a hypothesis about the filter '
+          'values: it is measured on all 106 wavelets by the check (float residual, dmey reported), not proved per wavelet. The float tolerance, reflect / periodization through the pyramid and the channel stacks are '
           'decided by inverse(forward(x)) on the real modules for random wavelets out of all 106, all modes, odd sizes, with PyWavelets own reconstruction error as yardstick (dmey clause).' + TIE + BRK,
           'Lean 4 theorems (general perfect reconstruction from PRBank for every extension, refinement both ways, un-pad rule) + exact correspondence + round-trip oracle', 'DESIGN.md §4 C02',
-          'PRBank of the float wavelet tables and the 2-D/J-level composition are measured, not proved: partial.')
+          'PRBank of the float wavelet tables is a measured hypothesis; rounding is measured: partial.')
     claim('C03',
           'Proved for the implementation model, for EVERY number of levels and EVERY image size with at least one row and column: DTCWTForward returns exactly the reference pyramid Spec.refForward - the '
           'same final low-pass and the same six complex bands (15,45,75,105,135,165 degrees; real and imaginary parts) at every level, hence the same shapes (C03P.dtcwt_forward_eq_ref), through the odd-size '
